@@ -296,7 +296,7 @@ def run_impl(model, case, limit):
     def log_fn(text):
         log.append(text)
         if probe:
-            snaps.append(json.dumps(c08.user_globals(g, progen.value_to_wire)))
+            snaps.append(json.dumps(c08.user_globals(g)))
     options = {'globals': g, 'maxStatements': limit, 'logFn': log_fn}
     if case['files'] is not None:
         options['fetchFn'] = fetch_fn(case['files'])
@@ -312,7 +312,7 @@ def run_impl(model, case, limit):
     except Exception as exc:  # pylint: disable=broad-except
         out['hostexc'] = type(exc).__name__ + ': ' + str(exc)[:200]
     out['log'] = log
-    out['globals'] = c08.user_globals(g, progen.value_to_wire)
+    out['globals'] = c08.user_globals(g)
     out['count'] = options.get('statementCount')
     return out, snaps
 
@@ -388,7 +388,7 @@ def run_reference(model, case, limit):
     ref = RefCounting(options, limit, case['files'])
     out = {}
     try:
-        out['result'] = c08.ref_wire(ref.run(model['statements'], None), library.SCRIPT_FUNCTIONS)
+        out['result'] = progen.value_to_wire(ref.run(model['statements'], None), library.SCRIPT_FUNCTIONS)
     except mods['runtime'].BareScriptRuntimeError as exc:
         out['error'] = str(exc)
     except mods['parser'].BareScriptParserError as exc:
@@ -396,7 +396,7 @@ def run_reference(model, case, limit):
     except RecursionError:
         return None
     out['log'] = log
-    out['globals'] = c08.user_globals(g, c08.ref_wire)
+    out['globals'] = c08.user_globals(g)
     out['count'] = ref.count
     return out
 
@@ -472,7 +472,8 @@ def check_program(ctx, st, case, rng, driver):
     unl, unl_snaps = run_impl(model, case, CAP)
     nonterm = EXCEEDED.match(unl.get('error', '')) is not None
     total = None if nonterm else unl['count']
-    limits = [0] + limits_for(rng, total, ctx.quick)
+    # L = 0 (really unlimited) is only run for programs known to stop: the implementation must never be able to hang the check
+    limits = ([] if nonterm else [0]) + limits_for(rng, total, ctx.quick)
     fully = case['family'] in ('fl', 'data')
     reqs, outs = [], []
     if fully and not nonterm and 'error' not in unl and 'hostexc' not in unl:
@@ -496,7 +497,7 @@ def check_program(ctx, st, case, rng, driver):
         tags = ['L=0' if limit == 0 else 'aborted' if EXCEEDED.match(out.get('error', '')) else 'error' if 'error' in out else 'completed']
         st.case([case['family'], case['text'], case['files'], limit],
                 nontrivial=(limit > 0 and (nonterm or abs(limit - total) <= 2 or bool(EXCEEDED.match(out.get('error', ''))))),
-                tags=tags + ['family:' + case['family']] + (case['tags'] if limit == limits[1] else []))
+                tags=tags + ['family:' + case['family']] + (case['tags'] if limit == limits[-1] else []))
         bad = budget_oracles(case, model, unl, unl_snaps, limit, out, snaps if fully else None)
         if case['family'] != 'data' and 'hostexc' not in out:
             ref = run_reference(model, case, limit)
